@@ -1454,6 +1454,8 @@ def accumulation(ctx, key, result, paths=None):
             t = strip_refs(t[1][1])
         elif is_call(t, "Try>::branch"):
             t = strip_refs(call_args(t)[0])
+        elif is_call(t, "Result::map_err", "Result<T, E>::map_err") and call_args(t):
+            t = strip_refs(call_args(t)[0])       # only the error is converted
         else:
             break
     if is_call(t, "::collect") and call_args(t):
